@@ -210,6 +210,12 @@ fn relational(n: usize, pdepth: usize, st: &mut Stats, sink: &Sink) {
         alma: Dyn<f64>,
         recent: Vec<f64>,
     }
+    for k in [Kind::Min, Kind::Max, Kind::Sma, Kind::Alma] {
+        if let Err(m) = guard(|| build::<f64>(&Spec::un(k, n, Spec::echo()))) {
+            sink.push(Violation::new("C07", &Spec::un(k, n, Spec::echo()), "panicked", "f64", &[], format!("the constructor panicked: {}", m)));
+            return;
+        }
+    }
     let mk = |k: Kind| build::<f64>(&Spec::un(k, n, Spec::echo()));
     let root = R { min: mk(Kind::Min), max: mk(Kind::Max), sma: mk(Kind::Sma), alma: mk(Kind::Alma), recent: vec![] };
     let tl = tails(n, false);
